@@ -210,7 +210,7 @@ class Pipe:
         m = self.mode
         if m == 'next':
             return some(self.cur)
-        if m == 'collect':
+        if m in ('collect', 'partition_point'):
             self.out.append(self.cur); return self.start_item(ex, st)
         if m == 'count':
             self.out.append(1); return self.start_item(ex, st)
@@ -248,6 +248,22 @@ class Pipe:
         m = self.mode
         if m in ('next', 'position', 'find'): return none()
         if m == 'collect': return ListModel(self.out, self.data or 'Vec')
+        if m == 'partition_point':
+            # std: index of the first element for which the predicate is false, PROVIDED the sequence is partitioned by it
+            bs = list(self.out); n = len(bs); callee = self.data
+            alts = []
+            for i in range(n + 1):
+                cond = And(*([bs[j] for j in range(i)] + ([Not(bs[i])] if i < n else [BoolVal(True)])))
+                part = And(*[Not(bs[j]) for j in range(i + 1, n)]) if i + 1 < n else BoolVal(True)
+
+                def mk(i, part):
+                    def t(ex, st, a):
+                        st.path.oblige('partition_point: the sequence is partitioned by the predicate (std leaves the result unspecified otherwise)', part, callee, 'spec')
+                        st.path.assume(part)
+                        return BitVecVal(i, 64)
+                    return t
+                alts.append((cond, mk(i, part)))
+            return Fork(alts)
         if m == 'count': return BitVecVal(len(self.out), 64)
         if m == 'last': return some(self.out[0]) if self.out else none()
         if m == 'any': return BoolVal(False)
@@ -510,6 +526,78 @@ def fn_call(ex, st, callee, args):
     if not isinstance(ex.deref(clo), Closure): return NotImplemented
     a = args[1] if isinstance(args[1], list) else [args[1]]
     return call_closure(ex, clo, a)
+
+
+class OptCont:
+    """continuation for Option combinators that call a closure on the payload"""
+    def __init__(self, kind): self.kind = kind
+
+    def step(self, ex, st, rv):
+        k = self.kind
+        if k in ('is_some_and', 'and_then', 'unwrap_or_else', 'map_or', 'map_or_else', 'is_none_or'): return rv
+        if k == 'map': return some(rv)
+        raise Unsupported('Option::' + k)
+
+
+@h(r'^(?:std::option::|core::option::)?Option::<.*>::(is_some_and|is_none_or|map|and_then|unwrap_or_else|map_or|filter)::<.*>$')
+def opt_comb(ex, st, callee, args):
+    """Option::{is_some_and, is_none_or, map, and_then, unwrap_or_else, map_or, filter}: the closure body is executed from MIR"""
+    kind = re.search(r'>::(\w+)::<', callee).group(1)
+    o = args[0]
+    if not isinstance(o, Enum): raise Unsupported('Option combinator on %r' % (o,))
+    is_some = o.disc == 1
+
+    def on_some(ex, st, a):
+        oo = a[0]; pay = oo.fields['Some'][0]
+        if kind in ('is_some_and', 'is_none_or', 'map', 'and_then'): return call_closure(ex, a[1], [pay], cont=OptCont(kind), st=st)
+        if kind == 'unwrap_or_else': return pay
+        if kind == 'map_or': return call_closure(ex, a[2], [pay], cont=OptCont(kind), st=st)
+        if kind == 'filter':
+            class F:
+                def step(self_, ex, st, rv): return Enum('Option', bv_of_bool(rv), {'Some': [pay], 'None': []})
+            return call_closure(ex, a[1], [box(pay)], cont=F(), st=st)
+        raise Unsupported(kind)
+
+    def on_none(ex, st, a):
+        if kind == 'is_some_and': return BoolVal(False)
+        if kind == 'is_none_or': return BoolVal(True)
+        if kind in ('map', 'and_then', 'filter'): return none()
+        if kind == 'unwrap_or_else': return call_closure(ex, a[1], [], cont=OptCont(kind), st=st)
+        if kind == 'map_or': return a[1]
+        raise Unsupported(kind)
+    c = simp(is_some)
+    if z3.is_true(c): return _now(ex, st, on_some(ex, st, args))
+    if z3.is_false(c): return _now(ex, st, on_none(ex, st, args))
+    return Fork([(is_some, on_some), (Not(is_some), on_none)])
+
+
+def _now(ex, st, r):
+    return r
+
+
+@h(r'^%s::<.*>::partition_point::<.*>$|^core::slice::<impl \[.*\]>::partition_point::<.*>$' % _SEQ)
+def seq_partition_point(ex, st, callee, args):
+    """partition_point(pred) on a sequence that is partitioned by pred (std leaves the result unspecified otherwise: the
+    partitioning is emitted as an obligation): index of the first element for which pred is false"""
+    l = as_list(ex, args[0])
+    it = Iter(l).with_stage('map', args[1])     # the predicate takes `&T`, which is what iteration by reference yields
+    p = Pipe(box(it), 'partition_point', callee)
+    return p.start_item(ex, st)
+
+
+@h(r'^Box::<\[.*; \d+\]>::new_uninit$')
+def box_new_uninit(ex, st, callee, args):
+    """`vec![a, b, ..]` expansion, step 1: Box<MaybeUninit<[T; N]>> = { uninit: (), value: ManuallyDrop { MaybeDangling { [T; N] } } }"""
+    return box([Opaque('uninit'), [[Opaque('uninit-array')]]])
+
+
+@h(r'^(?:std|alloc)::boxed::box_assume_init_into_vec_unsafe::<.*>$')
+def box_into_vec(ex, st, callee, args):
+    """`vec![..]` expansion, step 2: the initialised array becomes the Vec"""
+    b = ex.deref(args[0])
+    arr = b[1][0][0]
+    if not isinstance(arr, list): raise Unsupported('vec! array was not initialised')
+    return ListModel(list(arr), 'Vec')
 
 
 def container_hooks():
